@@ -101,7 +101,10 @@ Judge(e, m) ==
       \* C09: the datagram read in this tick answers a request that had already expired (harness clock), and the node's state
       \* differs from the model's - in which expired replies only leave the in-flight table - in a core field
       lateEffect == e.e = "tick" /\ e.input.dir = "resp" /\ e.input.tid \in SeqSet(e.expired) /\ d \cap CoreFields # {}
-      f == L1(e) \cup (IF lateEffect THEN {"C09_ExpiredIgnored"} ELSE {}) IN
+      \* C09: a reply or error that matches an outstanding request (transaction id and address) consumes it
+      notConsumed == e.e = "tick" /\ e.input.dir = "resp" /\ e.input.tid \in SeqSet(e.proj.present)
+                     /\ \E i \in s.infl : i.tid = e.input.tid - base /\ i.to = e.input.peer
+      f == L1(e) \cup (IF lateEffect THEN {"C09_ExpiredIgnored"} ELSE {}) \cup (IF notConsumed THEN {"C09_ConsumedOnce"} ELSE {}) IN
   IF f # {} THEN PrintT(<<"VIOL", ToJson([line |-> l, b |-> beh, failed |-> f, step |-> e.e])>>) /\ mode' = "skip"
   ELSE IF d # {}
        THEN PrintT(<<"DRIFT", ToJson([line |-> l, b |-> beh, step |-> e.e, fields |-> d,
